@@ -343,9 +343,9 @@ func main() {
 	for it := range ifaces {
 		ifaceTypes = append(ifaceTypes, it)
 	}
-	maxDev := 1
+	maxDev := 2
 	if c.Thorough() {
-		maxDev = 2
+		maxDev = 3
 	}
 	var evals, shapes, locs int64
 	var typeCount int64
